@@ -26,7 +26,8 @@ class Check(PropertyCheck):
         for _ in range(n):
             # every other scenario continues with a second episode after reset(): the clauses hold there as well
             yield slices.dispatch_scenario(rng, with_invalid=True, max_jobs=4 if tier == "quick" else 5,
-                                           max_ops=4 if tier == "quick" else 6, replay=rng.random() < 0.5)
+                                           max_ops=4 if tier == "quick" else 6, replay=rng.random() < 0.5,
+                                           queries=rng.random() < 0.5)   # users look at the dispatcher between dispatches
 
     def oracle(self, impl, scenario, index, line, out, ctx):
         res = []
